@@ -15,7 +15,7 @@ import (
 func init() {
 	register(&propDef{
 		id:      "C01",
-		explain: "Structural necessary conditions of 'requests are framed as RFC 9112 says or rejected': (R1) exhaustive path exploration of the request head field loop, in the mode the server parses in (special headers on) (the function reachable from RequestHeader.Read that compares field names with Content-Length and Transfer-Encoding): every accepting return (nil error) reached after both a Content-Length and a Transfer-Encoding field, or after a Transfer-Encoding field whose value did not match 'chunked', has connectionClose = true; a second Content-Length or Transfer-Encoding field, and a Transfer-Encoding on an HTTP/1.0 request, never reach an accepting return; every error return has connectionClose = true; (R2) in the serve loop the handler is only dispatched on paths where every head/body reader returned nil, and no iteration follows an error response; (R3) the chunk-size line scanner never skips a byte without having compared it with CR and LF, and every rejection in the chunk decoder returns a non-nil error; (R4) the functions the serve loop calls to read a request body report success without going through the framed-body reader only under a condition on the request's own framing (Expect: 100-continue deferral, declared length) - never on the method or on configuration alone, which would leave a declared body on the connection. Not decided: that method/target/body equal the RFC's for the longest accepted prefix; obs-fold and bare-LF treatment in the head (C09).",
+		explain: "Structural necessary conditions of 'requests are framed as RFC 9112 says or rejected': (R1) exhaustive path exploration of the request head field loop, in the mode the server parses in (special headers on) (the function reachable from RequestHeader.Read that compares field names with Content-Length and Transfer-Encoding): every accepting return (nil error) reached after both a Content-Length and a Transfer-Encoding field, or after a Transfer-Encoding field whose value did not match 'chunked', has connectionClose = true; a second Content-Length or Transfer-Encoding field, and a Transfer-Encoding on an HTTP/1.0 request, never reach an accepting return; every error return has connectionClose = true; (R2) in the serve loop the handler is only dispatched on paths where every head/body reader returned nil, and no iteration follows an error response; (R3) the chunk-size line scanner never skips a byte without having compared it with CR and LF, and every rejection in the chunk decoder returns a non-nil error; (R4) the functions the serve loop calls to read a request body report success without going through the framed-body reader only under a condition on the request's own framing (Expect: 100-continue deferral, declared length) - never on the method or on configuration alone, which would leave a declared body on the connection. (R6) in the request-head functions every comparison of a scanned field name with Content-Length or Transfer-Encoding goes through the case-insensitive comparator, never through an exact byte comparison - field names are case-insensitive on the wire whatever the normalisation setting. Not decided: that method/target/body equal the RFC's for the longest accepted prefix; obs-fold and bare-LF treatment in the head (C09).",
 		run: func(p *Prog, r *Report) {
 			runC01Head(p, r)
 			p.serveLoop("C01").report(r, "C01")
@@ -34,27 +34,42 @@ func runC01Head(p *Prog, r *Report) {
 	}
 	// the field loop(s): functions reachable from Read that compare a key with both names
 	var loops []*ssa.Function
+	nameCmp := 0
 	for f := range p.reachableFuncs([]*ssa.Function{read, p.Func("(*RequestHeader).readLoop")}, 6) {
 		if !inModule(f) || f.Blocks == nil || recvTypeName(f) != "RequestHeader" {
 			continue
 		}
 		cl, te := false, false
 		allCalls(f, func(b *ssa.BasicBlock, c ssa.CallInstruction) {
-			if isCallTo(c, cic) {
-				for _, a := range c.Common().Args {
-					switch globalOf(a) {
-					case "strContentLength":
-						cl = true
-					case "strTransferEncoding":
-						te = true
-					}
+			callee := c.Common().StaticCallee()
+			if callee == nil || len(c.Common().Args) != 2 {
+				return
+			}
+			exact := callee.Pkg != nil && callee.Pkg.Pkg.Path() == "bytes" && (callee.Name() == "Equal" || callee.Name() == "HasPrefix" || callee.Name() == "Compare")
+			if !isCallTo(c, cic) && !exact {
+				return
+			}
+			for _, a := range c.Common().Args {
+				g := globalOf(a)
+				switch g {
+				case "strContentLength":
+					cl = true
+				case "strTransferEncoding":
+					te = true
+				default:
+					continue
 				}
+				// R6: field names are case-insensitive on the wire, whatever the normalisation setting
+				nameCmp++
+				r.Check("R6", fmt.Sprintf("%s: the framing field name %s is matched case-insensitively (comparison #%d)", funcName(f), g, nameCmp), !exact, p.Pos(c.Pos()),
+					"the scanned field name is compared with "+g+" through bytes."+callee.Name()+": with header-name normalisation disabled a framing field spelled in another case ('content-length') is stored as an ordinary header, no body is read and the body bytes are parsed as the next request")
 			}
 		})
 		if cl && te {
 			loops = append(loops, f)
 		}
 	}
+	r.Floor("R6", "comparisons of a scanned field name with a framing field name", nameCmp, 2)
 	r.Floor("R1", "request head field loops", len(loops), 1)
 	for _, fn := range loops {
 		c01ExploreHead(p, r, fn, cic)
